@@ -503,3 +503,6 @@ def run(repo: Repo, rep: Report, tier: str) -> None:
     from .c07 import array_size_text_fold_rule
 
     array_size_text_fold_rule(repo, rep, "C13.R15")
+    from .c07 import count_text_rule
+
+    count_text_rule(repo, rep, "C13.R16")
